@@ -144,13 +144,17 @@ CLAIMS = {
             'compared step by step with the uninterrupted run.',
             'DESIGN.md section 4 C05', COMMON_NOTE + 'PARTIAL: transparency (same steps, outputs, result as the uninterrupted run for every placement) is proved for the uninterrupted run itself and checked on implementation + model for the generated placements; it is not a theorem over all placements.',
             'Coq proof: trace-flag + stepping/paused invariant over all runs (wp calculus) + symbolic execution of pause/play + vm_compute correspondence'),
-    'C06': ('Machine-checked proof (Coq) over M1: resume(v) stores exactly v; the first resume wins; a resume arriving after an interruption that execute() has not '
+    'C06': ('Machine-checked proof (Coq) over M1. For EVERY run (any program, listener scripts with re-entrant control calls, callbacks, any schedule of any '
+            'length; hooks that do not raise) a wake-up is never lost (Life/LifeWake.v, invariant W): a suspended stepping task either has its wake-up in the '
+            'loop\'s ready queue or is parked on exactly the current pending waiting future / the current pause future of a live process / an environment '
+            'future nobody completed - so once the wait has been resumed, interrupted or its state left, and once play() has been called, however these are '
+            'interleaved, the task is going to run. Per operation: resume(v) stores exactly v; the first resume wins; a resume arriving after an interruption that execute() has not '
             'dealt with is kept in a fresh waiting future (the race of the property); the stored value is forwarded as the only argument of the continuation; from '
             'every quiet world a wait holding a wake-up continues with exactly that value, and resume + one loop callback on a parked process runs the whole '
             'following chain of the reference interpreter. The interleavings named in the property (pause;resume in one iteration, pause;play then resume, repeated '
             'pause/play pairs) are evaluated on the model. Tied to the code by ~2.4k real runs per quick run: all orders of <= 3 events from {resume v, resume w, '
             'resume(), pause, play} at every boundary.',
-            'DESIGN.md section 4 C06', COMMON_NOTE + 'PARTIAL: "never WAITING for ever under every interleaving" is checked for <= 3 events per schedule on implementation + model, not proved for all schedules; the awaited-futures half is C10 (no pause there) plus the implementation oracle.',
+            'DESIGN.md section 4 C06', COMMON_NOTE + 'PARTIAL: the all-run theorem is a safety statement (the wake-up is queued); that the continuation then runs with the first resume value is proved per operation on quiet worlds and checked for <= 3 events per schedule; the awaited-futures half is C10 (no pause there) plus the implementation oracle.',
             'Coq proof: equations + symbolic execution of the wake-up path on quiet worlds + vm_compute correspondence'),
 
     'C02': ('Machine-checked proof (Coq) over M1. For EVERY run (any program, listener scripts with re-entrant control calls - kill from a listener, pause inside a '
@@ -158,12 +162,14 @@ CLAIMS = {
             'do not raise) and at every point between two environment events (Life/LifeAgree.v, an invariant proved compositionally over all model operations): '
             'FINISHED <-> the future holds the outputs, EXCEPTED e <-> the future raises e, KILLED m <-> the future raises KilledError with the text of m, each with '
             'the process closed, its hooks released, exactly one terminal notification of that kind sent to the listeners and the registered cleanup run exactly '
-            'once after it; live <-> the future is pending (or was cancelled by its owner), not closed, no terminal notification, no cleanup. By symbolic '
+            'once after it; live <-> the future is pending (or was cancelled by its owner), not closed, no terminal notification, no cleanup; and '
+            '(Life/LifeWake.v: every suspended stepping task is going to be woken) once the process has terminated and the loop has nothing left to run, '
+            'step_until_terminated() has returned unless the task failed or the step is still blocked in the program\'s own await of a future nobody completed. By symbolic '
             'execution on every quiet world additionally: each terminating operation (result, unsuccessful result, exception, Kill command, kill between steps) '
             'produces exactly the documented outcome and the stepping loop returns on a terminated process; the outcome never changes afterwards (C01). Tied to '
             'the code by ~2.9k real runs per quick run in which all eight accessors, the listener and cleanup counters and the stepping task are sampled after '
             'every event and callback (kill while paused, inside a step, from a listener, fail, raising late callbacks).',
-            'DESIGN.md section 4 C02', COMMON_NOTE + 'PARTIAL: "step_until_terminated() returns" is proved per operation (the loop head returns on a terminated process) and checked at the end of every schedule that completes the futures the program awaits; it is not part of the all-run invariant.',
+            'DESIGN.md section 4 C02', COMMON_NOTE + 'PARTIAL: the return of step_until_terminated() is proved up to "the stepping task itself did not fail" (no exception escapes step() is property C03, proved per hook, not over all schedules).',
             'Coq proof: invariant over all runs (compositional Hoare triples in wp form) + symbolic execution of every terminating operation + C01 finality + vm_compute correspondence'),
     'C03': ('Machine-checked proof (Coq) over M1 with one injected fault, by symbolic execution on EVERY world in which the fault is armed (whatever the occurrence '
             'count): for the step function and for each life-cycle hook of the transitions RUNNING->RUNNING, ->WAITING, ->FINISHED (incl. on_finished, on_terminated, '
